@@ -211,6 +211,24 @@ Definition fn_plus (a b : str) : str :=
   end.
 Definition fn_plus_str (a other : str) : str := fn_plus a (fn_norm other).
 
+(* operator==, operator!= (friends): comparison of the normalised strings; str(), c_str(), operator
+   std::string and operator<<(ostream) all hand out that same string *)
+Definition fn_eq (a b : str) : bool := str_eqb a b.
+
+(* operator-(const FileName &base): pos = filename.find_first_of(base) - the first character of this
+   file name that occurs ANYWHERE in base's characters (std::string::find_first_of takes a character
+   set) - ; npos: *this, otherwise FileName(filename.substr(pos + 1)) *)
+Fixpoint after_first_of (set s : str) : option str :=
+  match s with
+  | [] => None
+  | c :: s' => if mem c set then Some s' else after_first_of set s'
+  end.
+Definition fn_minus (a b : str) : str :=
+  match after_first_of b a with
+  | Some r => fn_norm r
+  | None => a
+  end.
+
 (* =========================================================== ArgumentList.h *)
 Definition al_ctor (av : list str) : list str := tl av.       (* drops av[0] *)
 
